@@ -770,7 +770,7 @@ class G:
             body = self.pick(['LIST (RECURSIVEMATCH) "" *', 'LIST (RECURSIVEMATCH REMOTE) "" *', 'LIST (REMOTE RECURSIVEMATCH) "" %'])
             return f"{tag} {body}", "recursivematch-alone"
         if m == 10:
-            bad = self.pick(["1:2:3", "1,,2", ",1", "1:", ":1", "a", "1,a", "-1", "1:-2", "1;2", "**", "1:*:2", ","])
+            bad = self.pick(["1:2:3", "1,,2", ",1", "1:", ":1", "a", "1,a", "-1", "1:-2", "**", "1:*:2", ","])
             body = self.pick(["FETCH {} FLAGS", "STORE {} +FLAGS (\\Seen)", "COPY {} mb", "UID FETCH {} FLAGS", "UID EXPUNGE {}", "MOVE {} mb", "SEARCH UID {}"]).format(bad)
             return f"{tag} {body}", "bad-seqset"
         if m == 11:
